@@ -32,10 +32,13 @@ def c04(c):
         "modelled and proved for all interleavings of the model's actions: the isWAdded / epoll-mask / ONESHOT / ET-report coupling of "
         "Write, Writev, Sendfile, modWrite, resetRead, flush, ResetPollerEvent, addConn (open handler before EPOLL_CTL_ADD), addDialer with a "
         "pending or an already completed connect, the poller's event handling (takeOnConnected, flush, dial callback, re-arm), peer reads, close",
+        "application hooks (g.OnRead custom reader, OnReadBufferAlloc/Free, custom Execute) are a dimension of both harness tiers, not of the "
+        "model: the model's flush sends min(queue, room) per writability event whatever is installed, so a configuration-dependent bound on "
+        "flush (seeded C04-7) shows as a model disagreement and as a stall",
         "only tested: byte content and order of the stream (C01), the write-buffer bound (C17), deadlines, UDP, custom OnRead handlers, "
         "fatal write errors, kqueue / std pollers, more than one IO poller in the simulated tier",
     ]
-    args = ["-n", n(c, 600, 12000), "-real", n(c, 6, -1), "-realmb", n(c, 16, 32)]
+    args = ["-n", n(c, 600, 12000), "-real", n(c, 12, -1), "-realmb", n(c, 16, 32)]
     c.harness("wake", args, overlay=True, model=MODEL, timeout=3000)
     c.finish()
 
@@ -49,7 +52,7 @@ MANIFEST = {
         technique="Coq proof (coupling invariant of the write wake-up protocol by induction over all action sequences, three epoll modes; "
                   "no-lost-wake-up, progress and bounded drain under fair rounds; refutation witnesses for the unrepaired code) + the real "
                   "poller / connection code on an emulated kernel under a cooperative scheduler, differential against the extracted model, "
-                  "with a stall oracle + real-socket stall detector in 3 modes x tcp/unix x 7 write origins",
+                  "with a stall oracle + real-socket stall and spin detector in 3 modes x 4 application-hook configurations x tcp/unix x 7 write origins",
         text="Theorems in coq/wake/C04.v about the executable model WakeModel.v (connection: unsent bytes, isWAdded, closed, dial pending; "
              "kernel: send-buffer room, NOSPACE; epoll entry: registered, EPOLLOUT in the mask, ONESHOT armed, pending ET report; poller: what it "
              "owes for the delivered event): the coupling invariant holds in every reachable state, writes issued at any time from anywhere "
